@@ -489,7 +489,7 @@ Proof. intros E m EO Hwf Hty Hrq. exact (wf_typed_canon_P E EO m Hwf Hty Hrq). Q
 (* hence the round trip: parsing what pack writes for such a message gives its normal form *)
 Corollary wf_typed_roundtrip : forall (E : env) (m : msg) (b : list Z),
   env_ok E = true -> wf_msg E m = true -> typed_msg E m = true -> reqsub_msg E m = true ->
-  pack_msg E m = Ok b -> Z.of_nat (length b) <= 2147483647 ->
+  pack_msg E m = Ok b -> Z.of_nat (length b) <= max_input ->
   unpack_top E (m_desc m) b = Ok (wnorm_msg E m).
 Proof.
   intros E m b EO Hwf Hty Hrq Hp Hl.
